@@ -20,42 +20,50 @@ namespace CaddyModel.C05
 
 /-! ## the whole statement -/
 
-/-
-FULL STATEMENT:  ∀ routes hasErrs errs req, serve routes hasErrs errs req = eval routes hasErrs errs req.
-It is FALSE for the code as it is: `Witness.compile_correct_full_fails` (a subroute that has error
-routes catches a failure raised behind it and the rest of the chain runs twice).
-What holds is the statement for every tree in which nothing can fail behind a subroute that has
-error routes (`treeOk`, a decidable syntactic condition — Spec.lean); in particular for every tree
-without subroute-level error routes, whatever else it contains.
--/
-theorem compile_correct_partial (routes errs : List Route) (hasErrs : Bool) (req : Req)
-    (h : treeOk routes errs = true) :
+/-- **the handlers that run and their order are exactly those the routing rules prescribe**: the
+    code-shaped evaluator and the rules agree on every route tree, every error-route list and
+    every request.  (The code before the repair of `Subroute.ServeHTTP` did not:
+    `Witness.compile_correct_old_code_fails`.) -/
+theorem compile_correct (routes errs : List Route) (hasErrs : Bool) (req : Req) :
     serve routes hasErrs errs req = eval routes hasErrs errs req := by
-  simp only [treeOk, Bool.and_eq_true] at h
   unfold serve eval
-  rw [rs_ok routes true emptyK _ [] h.1 (fun _ => noErr_emptyK)]
+  rw [rs_ok routes emptyK _ []]
   cases hp : specRoutes routes { req with groups := [], ctxErr := none, replStatus := none } [] with
   | cont r t => simp [Res.bind, emptyK]
   | stop o =>
     cases o with
     | done t s => simp [Res.bind]
+    | reached r t => simp [Res.bind]
     | err t st r' =>
       simp only [Res.bind]
       split
-      · rw [rs_ok errs true errorEmptyK _ t h.2 (fun _ => noErr_errorEmptyK)]
+      · rw [rs_ok errs errorEmptyK _ t]
         cases specRoutes errs (withError st { r' with path := req.path }) t with
         | cont r'' t2 => simp [Res.bind, errorEmptyK]
         | stop o2 => cases o2 <;> simp [Res.bind]
       · rfl
 
--- the hypothesis is met by a tree that has groups, a terminal route, `not`, an error matcher, a
--- rewrite, a failing handler inside a subroute WITH error routes, and server error routes
-example : treeOk
+-- a tree with groups, a terminal route, `not`, an error matcher, a rewrite, a failing handler inside
+-- a subroute WITH error routes, a failing handler BEHIND it, and server error routes
+example : serve
     [ .mk 1 [[.atom .path [1, 2], .not [[.atom .method [1]]]]] [.rewrite 1 3, .pass 2] false,
-      .mk 1 [] [.respond 3 200] false,
-      .mk 0 [[.err 0 403, .atom .host [2]]] [.pass 4] true,
-      .mk 0 [] [.sub [.mk 0 [] [.fail 5 500] false] true [.mk 0 [[.atom .path [3]]] [.pass 6] false]] true ]
-    [ .mk 1 [] [.pass 7] false, .mk 0 [[.atom .path [1]]] [.respond 8 404] true ] = true := by decide
+      .mk 0 [] [.sub [.mk 0 [] [.fail 5 500] false] true [.mk 0 [[.atom .path [3]]] [.pass 6] false]] false,
+      .mk 0 [] [.fail 7 404] false ]
+    true [ .mk 1 [] [.pass 8] false, .mk 0 [[.atom .path [1]]] [.respond 9 404] true ] wReq
+    = ⟨[⟨1, 1, none, none⟩, ⟨2, 3, none, none⟩, ⟨5, 3, none, none⟩, ⟨6, 3, some 500, some 500⟩,
+        ⟨7, 3, some 500, some 500⟩, ⟨9, 1, some 404, some 404⟩], some 404⟩ := by decide
+
+/-- the marker of `Subroute.ServeHTTP` never leaves it: the two arms of `serve` that mention it are
+    dead code -/
+theorem serve_chain_never_returns_marker (routes : List Route) (r r' : Req) (t t' : Trace) :
+    runRoutes routes emptyK r t ≠ .reached r' t' ∧ runRoutes routes errorEmptyK r t ≠ .reached r' t' := by
+  constructor
+  · intro h
+    have := runRoutes_nomark routes emptyK noMark_emptyK r t
+    simp [h, Out.isMarker] at this
+  · intro h
+    have := runRoutes_nomark routes errorEmptyK noMark_errorEmptyK r t
+    simp [h, Out.isMarker] at this
 
 /-! ## one theorem per clause (about the code-shaped model, for every tree) -/
 
@@ -188,7 +196,16 @@ example : runHandlers [.pass 1, .rewrite 2 3, .pass 3, .respond 4 201, .pass 5] 
 theorem subroute_same_rules (rs es : List Route) (k : K) (r : Req) (t : Trace) :
     runHandler (.sub rs false es) k r t = runRoutes rs k r t := by
   simp only [runHandler]
-  cases runRoutes rs k r t <;> simp
+  rw [rs_ok rs reachK r t, rs_ok rs k r t]
+  have hn := specRoutes_no_marker rs r t
+  cases hs : specRoutes rs r t with
+  | cont r' t' => simp [Res.bind, reachK]
+  | stop o =>
+    rw [hs] at hn
+    cases o with
+    | done t' s => simp [Res.bind]
+    | err t' st r' => simp [Res.bind]
+    | reached r' t' => exact absurd hn (by simp [Res.NoMarker])
 
 /-- (2): wrapping a server's whole route list into one subroute changes nothing observable. -/
 theorem subroute_wrap_invariant (rs errs : List Route) (hasErrs : Bool) (req : Req) :
@@ -210,11 +227,22 @@ example : serve [.mk 0 [] [.sub [.mk 1 [[.atom .path [1]]] [.rewrite 1 3, .fail 
     same function, on the request as it is at that moment plus the error — the URI is NOT
     restored here (see `Witness.subroute_error_routes_see_rewritten_uri`). -/
 theorem subroute_error_routes_same_rules (rs es : List Route) (k : K) (r r' : Req) (t t' : Trace) (st : Nat)
-    (h : runRoutes rs k r t = .err t' st r') :
+    (h : runRoutes rs reachK r t = .err t' st r') :
     runHandler (.sub rs true es) k r t = runRoutes es k (withError st r') t' := by
   simp [runHandler, h]
 
-example : runRoutes [.mk 0 [] [.fail 2 500] false] emptyK wReq [] = .err [⟨2, 1, none, none⟩] 500 wReq := by decide
+/-- (4): … and ONLY if ITS chain fails: once the subroute's routes have passed the request on, the
+    rest of the chain runs outside the reach of the subroute's error routes — whatever it returns,
+    an error included, is returned as is, and it runs once.  (This is the clause the code violated
+    before the repair.) -/
+theorem subroute_does_not_catch_later_failures (rs es : List Route) (hasErrs : Bool) (k : K)
+    (r r' : Req) (t t' : Trace) (h : runRoutes rs reachK r t = .reached r' t') :
+    runHandler (.sub rs hasErrs es) k r t = k r' t' := by
+  simp [runHandler, h]
+
+example : runRoutes [.mk 0 [] [.pass 1] false] reachK wReq [] = .reached wReq [⟨1, 1, none, none⟩] := by decide
+
+example : runRoutes [.mk 0 [] [.fail 2 500] false] reachK wReq [] = .err [⟨2, 1, none, none⟩] 500 wReq := by decide
 
 /-- **a matcher error diverts**: the route's handlers do not run, nothing after it runs; the error
     surfaces exactly like a handler error. -/
@@ -235,6 +263,7 @@ theorem error_diverts_with_original_uri (routes errs : List Route) (req r' : Req
     serve routes true errs req =
       match runRoutes errs errorEmptyK (withError st { r' with path := req.path }) t with
       | .done t2 s2 => ⟨t2, s2⟩
+      | .reached _ t2 => ⟨t2, none⟩        -- dead arm (`serve_chain_never_returns_marker`)
       | .err t2 _ _ => ⟨t2, some (writeStatus (some st))⟩ := by
   have : errs.isEmpty = false := by cases errs <;> simp_all
   simp only [serve, h, this, Bool.not_false, Bool.and_self, if_true]
@@ -299,13 +328,12 @@ theorem unanswered_gets_empty_default (routes errs : List Route) (hasErrs : Bool
         exact ih r t (fun g' s' h' t' hm => hh g' s' h' t' (List.mem_cons_of_mem _ hm))
   simp [serve, key routes _ [] h]
 
-/-- more generally (for trees satisfying `treeOk`): whenever the rules pass the request through
+/-- more generally: whenever the rules pass the request through
     all routes, the response is empty, whatever handlers ran on the way. -/
 theorem passed_through_gets_empty_default (routes errs : List Route) (hasErrs : Bool) (req r : Req) (t : Trace)
-    (hok : treeOk routes errs = true)
     (h : specRoutes routes { req with groups := [], ctxErr := none, replStatus := none } [] = .cont r t) :
     serve routes hasErrs errs req = ⟨t, none⟩ := by
-  rw [compile_correct_partial routes errs hasErrs req hok]
+  rw [compile_correct routes errs hasErrs req]
   simp [eval, h]
 
 example : specRoutes [.mk 0 [] [.pass 1, .rewrite 2 3] false, .mk 0 [[.atom .path [1]]] [.respond 3 200] true]
@@ -339,17 +367,19 @@ theorem status_placeholder_tracks_handler_errors (routes errs : List Route) (has
     ∀ e ∈ (serve routes hasErrs errs req).trace, ∀ st, e.err = some st → st ≠ 0 → e.repl = some st := by
   have h0 : Req.PlaceholderOk { req with groups := [], ctxErr := none, replStatus := none } := by
     intro st h; cases h
-  have h1 := runRoutes_pok routes emptyK kOk_emptyK _ [] h0 (by simp)
+  have h1 := (runRoutes_pok routes emptyK kOk_emptyK _ [] h0 (by simp)).1
   unfold serve
   cases hp : runRoutes routes emptyK { req with groups := [], ctxErr := none, replStatus := none } [] with
   | done t s => rw [hp] at h1; exact h1
+  | reached r' t => rw [hp] at h1; exact h1
   | err t st r' =>
     rw [hp] at h1
     simp only
     split
-    · have h2 := runRoutes_pok errs errorEmptyK kOk_errorEmptyK _ t (withError_ok st { r' with path := req.path }) h1
+    · have h2 := (runRoutes_pok errs errorEmptyK kOk_errorEmptyK _ t (withError_ok st { r' with path := req.path }) h1).1
       cases he : runRoutes errs errorEmptyK (withError st { r' with path := req.path }) t with
       | done t2 s2 => rw [he] at h2; exact h2
+      | reached r2 t2 => rw [he] at h2; exact h2
       | err t2 st2 r2 => rw [he] at h2; exact h2
     · exact h1
 
